@@ -271,6 +271,8 @@ Inductive ev20 :=
 | EOp (o : op20)        (* snapd starts an operation (reads the state, plans the writes) *)
 | EWrite                (* the next planned write reaches the disk *)
 | EReset                (* power loss, crash, failed boot, or orderly reboot *)
+| ERestart              (* snapd is restarted WITHOUT a reboot while the writes of an operation are in flight: the rest
+                           of the write list is dropped, the task will be re-run from the top on the partial state *)
 | EFirmware (tb : bool)   (* tb: the one-shot tryboot flag (only the not-scriptable firmware looks at it) *)
 | EInitramfs.
 
@@ -290,6 +292,13 @@ Definition in_window (m : mach) : bool :=
   | Some (SetK _ true), WEnable _ :: _ | Some (SetK _ true), WEnv _ _ _ :: _ => true
   | _, _ => false
   end.
+
+(* A restart is considered everywhere except inside a kernel setNext that was itself started while the outcome of a
+   trial was still unrecorded (kernel_status = trying): snapd runs MarkBootSuccessful first thing after every start,
+   before any task, so such a setNext does not occur; re-entering MarkBootSuccessful on the half-retargeted
+   try-kernel would commit a kernel that never booted. *)
+Definition is_setk (c : option op20) : bool := match c with Some (SetK _ _) => true | _ => false end.
+Definition restart_ok (m : mach) : bool := negb (is_setk (cur m) && status_eqb (ks (st m)) STrying).
 
 (* NoTry (undo) is only ever asked for a revision that was known-good before *)
 Definition op_enabled (m : mach) (o : op20) : bool :=
@@ -347,6 +356,13 @@ Definition step20 (cf : conf) (fx g : bool) (m : mach) (e : ev20) : mach :=
              ab := match cur m with Some o => if done then fin_ab o s' (ab m) else ab m | None => ab m end |}
       end
   | EReset, _ => if g && in_window m then m else with_st m (st m) PhOff
+  | ERestart, PhRun k b =>
+      match pend m with
+      | [] => m
+      | _ => if (g && in_window m) || negb (restart_ok m) then m
+             else {| st := st m; ph := ph m; pend := []; cur := None;
+                     gk := gk m; gb := gb m; ak := ak m; ab := ab m |}
+      end
   | EFirmware tb, PhOff =>
       let '(s', r) := firmware_c cf tb (st m) in
       with_st m s' (match r with FwImage i => PhFw i | FwReboot => PhOff | FwStuck => PhDead end)
@@ -474,6 +490,7 @@ Definition init16 (k c : rev) : mach16 :=
 (* what the driver does: whole operations, optionally cut by a power loss after `cut` writes, and (re)boots *)
 Inductive act20 :=
 | AOp (o : op20) (cut : option nat)
+| AOpR (o : op20) (cut : nat)   (* the operation is cut after `cut` writes by a snapd restart; no reboot *)
 | AFw (tb : bool)    (* reset, firmware runs, then the boot dies before the initramfs *)
 | ABoot (tb : bool).  (* reset, then up to three firmware+initramfs rounds; tb: tryboot flag of the first one *)
 
@@ -481,6 +498,7 @@ Definition expand20 (a : act20) : list ev20 :=
   match a with
   | AOp o None => EOp o :: repeat EWrite 8
   | AOp o (Some k) => EOp o :: repeat EWrite k ++ [EReset]
+  | AOpR o k => EOp o :: repeat EWrite k ++ [ERestart]
   | AFw tb => [EReset; EFirmware tb]
   | ABoot tb => [EReset; EFirmware tb; EInitramfs; EFirmware false; EInitramfs; EFirmware false; EInitramfs]
   end.
@@ -622,6 +640,16 @@ Definition mon_item (acts : list act20) (m : mon) (it : item20) : mon :=
                         (if full then [] else rk m) (if full then [] else rb m) bk' bb' false false false (bad m)
           | SetK r nt => mon_set m (tk m) (tb m) (req full nt (lk m) r (rk m)) (rb m) bk' bb' false false false (bad m)
           | SetB r nt => mon_set m (tk m) (tb m) (rk m) (req full nt (lb m) r (rb m)) bk' bb' false false false (bad m)
+          end
+      | Some (AOpR o _) =>
+          (* like a cut operation, but the same boot goes on *)
+          match o with
+          | Mark =>
+              mon_set m (match bk m with Some k => k :: tk m | None => tk m end)
+                        (match bb m with Some b => b :: tb m | None => tb m end)
+                        (rk m) (rb m) (bk m) (bb m) false false false (bad m)
+          | SetK r nt => mon_set m (tk m) (tb m) (req false nt (lk m) r (rk m)) (rb m) (bk m) (bb m) false false false (bad m)
+          | SetB r nt => mon_set m (tk m) (tb m) (rk m) (req false nt (lb m) r (rb m)) (bk m) (bb m) false false false (bad m)
           end
       | Some (AFw _) => mon_set m (tk m) (tb m) (rk m) (rb m) None None (trial_k m) (trial_b m) false (bad m)
       | Some (ABoot _) => mon_set m (tk m) (tb m) (rk m) (rb m) None None (trial_k m) (trial_b m) true (bad m)
